@@ -760,7 +760,7 @@ var c05CounterNames = []string{
 	"diag_assigned_set_size_differs", "index_entries_checked", "listing_results_checked", "get_by_pod_hits",
 	"live_reservations_checked", "matchable_reservations_checked", "diag_matchable_index_lists_unmatchable",
 	"allocate_once_nominate_filter_asked", "allocate_once_nominate_filter_skipped_no_cycle_state", "diag_before_prefilter_failed",
-	"scheduling_cycles_run", "restore_path_matched", "cycle_nothing_nominated", "cycle_nominated", "states_with_exhausted_allocate_once",
+	"scheduling_cycles_run", "scheduling_cycles_run_for_a_non_owner_pod", "restore_path_matched", "cycle_nothing_nominated", "cycle_nominated", "states_with_exhausted_allocate_once",
 	"diag_reserve_did_not_assume",
 }
 var c05CounterIdx = func() map[string]int {
@@ -1071,6 +1071,9 @@ func (s *c05Sys) checkCycles(exhausted bool) []mc.Violation {
 			continue
 		}
 		s.count("scheduling_cycles_run", 1)
+		if !p.def.owner {
+			s.count("scheduling_cycles_run_for_a_non_owner_pod", 1)
+		}
 		state := getStateData(cs)
 		for _, node := range c05Nodes {
 			nrs := state.nodeReservationStates[node]
@@ -1306,6 +1309,7 @@ func TestVerifC05Hist(t *testing.T) {
 	evalAll := env.Thorough()
 	b := &mc.BFS{Res: res, Env: env, New: func() mc.System { return c05NewSys(res, ops, evalAll) }, NumOps: len(ops),
 		OpName: func(i int) string { return ops[i].name }, MaxDepth: env.Pick(6, 9), Repeats: 0}
+	res.Bounds = map[string]any{}
 	b.Run()
 	res.Bounds["scheduling_cycle_oracle"] = map[bool]string{true: "every state with a matchable reservation", false: "every state with an exhausted allocate-once reservation"}[evalAll]
 	c05FlushCounters(res)
